@@ -104,7 +104,9 @@ impl AsyncRead for Scripted {
         let avail = limit.saturating_sub(st.pos);
         if avail == 0 {
             if st.eof_at.map(|e| st.pos >= e).unwrap_or(false) {
-                st.log.push(Ev::Eof);
+                if st.log.last() != Some(&Ev::Eof) {
+                    st.log.push(Ev::Eof);
+                }
                 if st.fail_instead_of_eof {
                     return Poll::Ready(Err(std::io::Error::new(std::io::ErrorKind::ConnectionReset, "connection reset by the scripted peer")));
                 }
